@@ -101,6 +101,7 @@ def adversarial(rng, prog, opts=None):
             if it["kind"] == "func" and rng.random() < 0.8:
                 count[it["pkg"]] += 1
                 it["fn"] = "Mk%d" % count[it["pkg"]]
+    prog.mimic_methods = rng.random() < opts.get("p_mimic_methods", 0.7)
     # a helper in the injector file that calls built-in functions: Wire copies it, and the names under which the
     # generated file imports packages must not capture them
     if rng.random() < opts.get("p_builtin_helper", 0.6):
@@ -127,7 +128,7 @@ def adversarial(rng, prog, opts=None):
             continue
         out, seen = [], set()
         for _ in range(n):
-            nm = rng.choice(PARAM_POOL)
+            nm = "@pkg" if rng.random() < opts.get("p_param_pkg", 0.0) else rng.choice(PARAM_POOL)
             while nm != "_" and not nm.startswith("@") and nm in seen:
                 nm = rng.choice(PARAM_POOL)
             seen.add(nm)
@@ -144,7 +145,12 @@ def resolve_param_names(prog, u, inj_used_quals):
     seen = set(x for x in u.inj["argnames"] if not x.startswith("@"))
     for k, nm in enumerate(u.inj["argnames"]):
         if nm == "@pkg":
-            nm = next((q for q in free if q not in seen), "p%d" % k)
+            # first choice: the package of the parameter's own type (`log *log.Logger`), then any package the body of the
+            # template does not mention
+            td = u.inj["args"][k]
+            own = prog.qual(u.structs[td[1]]["pkg"]) if td[0] in ("v", "p") and u.structs[td[1]]["pkg"] != "app" else None
+            cands = ([own] if own and own not in inj_used_quals else []) + free
+            nm = next((q for q in cands if q not in seen), "p%d" % k)
         elif nm == "@local":
             td = u.inj["out"] if k == 0 else u.inj["args"][k - 1]
             base = u.structs[td[1]]["name"] if td[0] != "i" else u.ifaces[td[1]]["name"]
